@@ -151,7 +151,7 @@ def replay_flat(states, extra):
                 obs = observe_flat(rig, c['den'], perm)
                 if obs not in allowed:
                     b = {'kind': 'flat', 'n': c['n'], 'A': c['A'], 'den': c['den'], 'ordered': c['ordered'], 'pc': c['pc'],
-                         'style': style, 'tensor': tensor, 'perm': [p + 1 for p in perm], 'observed': obs, 'allowed': allowed[:6]}
+                         'style': style, 'tensor': tensor, 'perm': [p + 1 for p in perm], 'observed': obs, 'allowed': allowed}
                     bad.append(b if len(bad) < 40 else None)
                 keys.add(('flat', c['n'], c['A'], c['ordered'], c['pc'], len(allowed) > 1, perm == sorted(perm)))
                 if sample is None:
@@ -595,7 +595,7 @@ def replay_layouts(states, extra):
         g = st['aux']['g']
         if obs not in st['out']:
             b = {'kind': c['kind'], 'grouping': g, 'outOrd': c['outOrd'], 'inOrd': c['inOrd'], 'pcOut': c['pcOut'],
-                 'pcIn': c.get('pcIn', True), 'C': st['aux']['C'], 'observed': obs, 'allowed': st['out'][:6]}
+                 'pcIn': c.get('pcIn', True), 'C': st['aux']['C'], 'observed': obs, 'allowed': st['out']}
             bad.append(b if len(bad) < 40 else None)
         sizes = tuple(sorted(g.count(k) for k in set(g)))
         keys.add((c['kind'], sizes if c['kind'] == 'group' else len(st['out']), c['outOrd'], c['inOrd'], c['pcOut']))
@@ -1070,14 +1070,14 @@ def replay(ctx, rec):
         obs = observe_flat(rig, sig['den'], [p - 1 for p in sig['perm']])
         print('observed now:', obs)
         print('was observed:', sig['observed'])
-        print('allowed (first):', sig['allowed'])
-        return obs in sig['allowed'] and len(sig['allowed']) < 6
+        print('allowed (first):', sig['allowed'][:6])
+        return obs in sig['allowed']
     if sig.get('kind') in ('group', 'nested'):
         c = {'kind': sig['kind'], 'outOrd': sig['outOrd'], 'inOrd': sig['inOrd'], 'pcOut': sig['pcOut'], 'pcIn': sig['pcIn']}
         obs = observe_two_level(c, {'g': sig['grouping'], 'C': sig['C']})
         print('observed now:', obs)
-        print('allowed (first):', sig['allowed'])
-        return obs in sig['allowed'] and len(sig['allowed']) < 6
+        print('allowed (first):', sig['allowed'][:6])
+        return obs in sig['allowed']
     if sig.get('kind') == 'random':
         r = observe_random(sig['case'], sig['case_seed'], sig.get('max_n', 8))
         print('observed now:', r.get('obs'), r.get('error'))
